@@ -14,7 +14,7 @@ open ShipVerif.Ski (Str normalize)
 theorem C15_op_invariant (h : H) (s t : Str) (hst : normalize s = normalize t) :
     step h (.register s) = step h (.register t) ∧ step h (.unregister s) = step h (.unregister t) ∧
     step h (.cancel s) = step h (.cancel t) ∧ step h (.disconnect s) = step h (.disconnect t) ∧
-    step h (.pairingDetail s) = step h (.pairingDetail t) := by
+    step h (.pairingDetail s) = step h (.pairingDetail t) ∧ step h (.lookup s) = step h (.lookup t) := by
   simp only [step, hst, and_self]
 
 /-- in particular for the variants of C15: case changes, inserted spaces and dashes -/
@@ -282,6 +282,7 @@ theorem C10_no_dial_after_shutdown (h : H) (hs : h.shut = true) (e : Ev) (k : Ke
     simp only [step]
     exact ⟨cancelConn_no_dial _ _ k, by simp [hs]⟩
   | pairingDetail s => simp only [step]; split <;> simp [hs]
+  | lookup s => simp [step, hs]
   | setAuto b => simp [step, hs]
   | shutdown => simp [step]
   | report ks =>
@@ -482,6 +483,7 @@ theorem C10_dial_only_registered (h : H) (e : Ev) (k : Key) (hd : Obs.dial k ∈
     simp only [step] at hd
     exact absurd hd (cancelConn_no_dial _ _ k)
   | pairingDetail s => simp only [step] at hd; split at hd <;> simp at hd
+  | lookup s => simp [step] at hd
   | setAuto b => simp [step] at hd
   | shutdown => simp [step] at hd
   | connected k' id st => simp [step] at hd
@@ -698,6 +700,7 @@ theorem C10_trust_sources (h : H) (e : Ev) (k : Key) (ht : ((step h e).1.get k).
     · rw [untrust_trusted_other _ _ _ hk, cancelConn_trusted] at ht
       simpa [get_set, hk, get_touch] using ht
   | pairingDetail s => left; simp only [step] at ht; split at ht <;> simpa [get_touch] using ht
+  | lookup s => left; simpa [step, get_touch] using ht
   | setAuto b => left; simpa [step, H.get] using ht
   | shutdown => left; simpa [step, H.get] using ht
   | report ks =>
@@ -1026,6 +1029,7 @@ theorem J_step (h : H) (e : Ev) (hj : ∀ k, J h k) : ∀ k, J (step h e).1 k :=
   | pairingDetail s =>
     simp only [step]
     split <;> exact J_ben (ben_touch h (normalize s) k) (hj k)
+  | lookup s => exact J_ben (ben_touch h (normalize s) k) (hj k)
   | setAuto b => exact J_ben (h := h) ⟨rfl, rfl⟩ (hj k)
   | shutdown => exact J_ben (h := h) ⟨rfl, rfl⟩ (hj k)
   | report ks => exact J_ben (reportFold_ben k ks (h, [])) (hj k)
